@@ -179,8 +179,12 @@ class ConfigList(ComposedNode, list):
                 return True
             return node.ayns.has_priority_over(current, if_equal=True)
 
+        def holes(list_path):
+            # (a list of the newer value that meets a list: what it loses leaves holes behind, see ComposedNode.filter_nodes)
+            return 'always' if isinstance(self.ayns.get_node(list_path, incomplete=None), list) else None
+
         if isinstance(other, ComposedNode):
-            other.ayns.filter_nodes(keep_if_exists, holes='always')
+            other.ayns.filter_nodes(keep_if_exists, holes=holes)
 
         ret = super().ayns.on_merge_impl(prefix, other)
         ComposedNode._drop_holes(ret)
